@@ -19,6 +19,7 @@ type Str struct {
 	S    string
 	Code *smt.Term
 	Num  *smt.Term // when set: the decimal rendering of this 64-bit integer term
+	FNum *smt.Term // when set: a text that strconv.ParseFloat parses to this float64 term (NaN/Inf included)
 }
 
 type StructV struct{ F []Value }
